@@ -33,6 +33,7 @@ import (
 	"github.com/nuts-foundation/nuts-node/crypto/hash"
 	"github.com/nuts-foundation/nuts-node/network/dag"
 	"github.com/nuts-foundation/nuts-node/vcr/credential"
+	"github.com/nuts-foundation/nuts-node/vcr/pe"
 	"github.com/nuts-foundation/nuts-node/vdr/didjwk"
 	"github.com/nuts-foundation/nuts-node/vdr/didkey"
 	"github.com/nuts-foundation/nuts-node/vdr/didweb"
@@ -303,7 +304,91 @@ func TestVerifC19(t *testing.T) {
 		tx.SigningKeyID()
 		return "ok"
 	}
-	eps := map[string]func(string) string{"dag.ParseTransaction": parseTx, "didweb.Resolve": web, "didkey.Resolve": key, "didjwk.Resolve": jwkR, "crypto.ParseJWT": parseJWT, "credential.vp": vpPath, "credential.vc": vcPath}
+	// Presentation Exchange, well-formed-but-adversarial inputs (the PE MODEL belongs to C12; here: crash/timeout oracle plus the
+	// parallel-array invariant every caller of Match relies on). Input: {"pd":…, "vcs":[…], "sub":… (optional)}.
+	// Match → len(credentials) == len(mappings) → wallet side (builder) → verifier side (Validate of the wallet's own submission and of
+	// the given/mutated one) → what discovery's Search does with the two Match results.
+	pePath := func(in string) string {
+		var w struct {
+			PD  json.RawMessage   `json:"pd"`
+			VCs []json.RawMessage `json:"vcs"`
+			Sub json.RawMessage   `json:"sub"`
+		}
+		if json.Unmarshal([]byte(in), &w) != nil {
+			return "err:harness"
+		}
+		def, err := pe.ParsePresentationDefinition(w.PD)
+		if err != nil {
+			return "err:pd"
+		}
+		var creds []vc.VerifiableCredential
+		var rawVCs []string
+		for _, r := range w.VCs {
+			c, err := vc.ParseVerifiableCredential(string(r))
+			if err != nil {
+				return "err:vc"
+			}
+			creds = append(creds, *c)
+			rawVCs = append(rawVCs, string(r))
+		}
+		res := "ok"
+		matched, mappings, err := def.Match(creds)
+		if err != nil {
+			res = "err:match"
+		} else {
+			if len(matched) != len(mappings) {
+				// show what the callers do with it (discovery Search's loop, Validate of the wallet's own submission)
+				consequence := "no panic observed in the callers"
+				func() {
+					defer func() {
+						if r := recover(); r != nil {
+							consequence = fmt.Sprintf("the callers' parallel indexing PANICS: %v", r)
+						}
+					}()
+					for i := range mappings {
+						_ = matched[i]
+					}
+				}()
+				return fmt.Sprintf("INVARIANT-BROKEN Match returned %d credential(s) and %d descriptor mapping(s); Validate and discovery Search index one with the other; %s", len(matched), len(mappings), consequence)
+			}
+			// discovery/module.go Search: credentialMap[inputDescriptorMappingObjects[i].Id] = submissionVCs[i]
+			credentialMap := map[string]vc.VerifiableCredential{}
+			for i := range mappings {
+				credentialMap[mappings[i].Id] = matched[i]
+			}
+			def.ResolveConstraintsFields(credentialMap)
+		}
+		// the presentation a wallet sends: all its credentials in one JSON-LD VP
+		vp := `{"@context":["https://www.w3.org/2018/credentials/v1"],"type":["VerifiablePresentation"],"verifiableCredential":[` + strings.Join(rawVCs, ",") + `],"proof":{"type":"JsonWebSignature2020","verificationMethod":"did:nuts:holder#key-1","proofPurpose":"authentication","created":"2024-01-01T00:00:00Z","jws":"e30..c2ln"}}`
+		if len(rawVCs) == 1 {
+			vp = strings.Replace(vp, `"verifiableCredential":[`+rawVCs[0]+`]`, `"verifiableCredential":`+rawVCs[0], 1)
+		}
+		envelope, err := pe.ParseEnvelope([]byte(vp))
+		if err != nil {
+			return "err:envelope"
+		}
+		// wallet side: build the submission, verifier side: validate it
+		builder := def.PresentationSubmissionBuilder()
+		builder.AddWallet(did.MustParseDID("did:nuts:holder"), creds)
+		if built, _, err := builder.Build("ldp_vp"); err == nil {
+			if _, err := built.Validate(*envelope, *def); err != nil && res == "ok" {
+				res = "err:validate-own"
+			}
+			built.Resolve(*envelope)
+		}
+		if len(w.Sub) > 0 {
+			sub, err := pe.ParsePresentationSubmission(w.Sub)
+			if err != nil {
+				return "err:submission"
+			}
+			if _, err := sub.Validate(*envelope, *def); err != nil && res == "ok" {
+				res = "err:validate"
+			}
+			sub.Resolve(*envelope)
+		}
+		return res
+	}
+	eps := map[string]func(string) string{"pe.match+validate": pePath, "dag.ParseTransaction": parseTx, "didweb.Resolve": web, "didkey.Resolve": key, "didjwk.Resolve": jwkR, "crypto.ParseJWT": parseJWT, "credential.vp": vpPath, "credential.vc": vcPath}
 
 	replay, isReplay := c19ReadOps()
 	for _, op := range replay {
@@ -327,6 +412,100 @@ func TestVerifC19(t *testing.T) {
 		o.explore(ep, in, func() string { return fn(in) })
 		if ep == "didkey.Resolve" {
 			didKeyOp(in)
+		}
+	}
+
+	// ---- Presentation Exchange: definitions with and without submission_requirements × overlapping descriptors × credential sets
+	{
+		org := func(id, name, city string) string {
+			return `{"@context":["https://www.w3.org/2018/credentials/v1","https://nuts.nl/credentials/v1"],"id":"did:nuts:issuer#` + id + `","type":["VerifiableCredential","NutsOrganizationCredential"],"issuer":"did:nuts:issuer","issuanceDate":"2024-01-01T00:00:00Z","credentialSubject":{"id":"did:nuts:holder","organization":{"name":"` + name + `","city":"` + city + `"}},"proof":{"type":"JsonWebSignature2020","verificationMethod":"did:nuts:issuer#key-1","proofPurpose":"assertionMethod","created":"2024-01-01T00:00:00Z","jws":"e30..c2ln"}}`
+		}
+		other := `{"@context":["https://www.w3.org/2018/credentials/v1"],"id":"did:nuts:issuer#9","type":["VerifiableCredential","OtherCredential"],"issuer":"did:nuts:issuer","issuanceDate":"2024-01-01T00:00:00Z","credentialSubject":{"id":"did:nuts:holder","x":"y"},"proof":{"type":"JsonWebSignature2020","verificationMethod":"did:nuts:issuer#key-1","proofPurpose":"assertionMethod","created":"2024-01-01T00:00:00Z","jws":"e30..c2ln"}}`
+		credSets := [][]string{{org("1", "Care BV", "Caretown")}, {org("1", "Care BV", "Caretown"), org("2", "Cure BV", "Curetown")}, {org("1", "Care BV", "Caretown"), other},
+			{other}, {}, {org("1", "Care BV", "Caretown"), org("1", "Care BV", "Caretown")}, {org("1", "Care BV", "Caretown"), org("2", "Cure BV", "Curetown"), other}}
+		// descriptor bodies: several are satisfied by the SAME credential
+		descBodies := []string{
+			`"constraints":{"fields":[{"path":["$.type"],"filter":{"type":"string","const":"NutsOrganizationCredential"}}]}`,
+			`"constraints":{"fields":[{"path":["$.credentialSubject.organization.city"],"filter":{"type":"string"}}]}`,
+			`"constraints":{"fields":[{"path":["$.credentialSubject.organization.name"],"filter":{"type":"string","const":"Care BV"}}]}`,
+			`"constraints":{"fields":[{"path":["$.issuer"],"filter":{"type":"string","pattern":"^did:nuts:"}}]}`,
+			`"constraints":{"fields":[{"path":["$.credentialSubject.nope"],"filter":{"type":"string"}}]}`,
+			`"constraints":{"fields":[{"path":["$.type"],"filter":{"type":"string","const":"OtherCredential"}}]}`,
+			`"constraints":{"fields":[{"id":"city","path":["$.credentialSubject.organization.city","$.credentialSubject.x"]}]}`,
+		}
+		reqs := []string{``, `"submission_requirements":[{"name":"r","rule":"pick","count":1,"from":"A"}],`, `"submission_requirements":[{"name":"r","rule":"all","from":"A"}],`,
+			`"submission_requirements":[{"name":"r","rule":"pick","min":1,"from":"A"}],`, `"submission_requirements":[{"name":"r","rule":"pick","min":1,"max":2,"from":"A"}],`,
+			`"submission_requirements":[{"name":"r","rule":"pick","count":2,"from":"A"}],`, `"submission_requirements":[{"name":"r","rule":"pick","max":1,"from":"A"}],`,
+			`"submission_requirements":[{"name":"r","rule":"all","from":"A"},{"name":"s","rule":"pick","count":1,"from":"B"}],`,
+			`"submission_requirements":[{"name":"r","rule":"pick","count":1,"from_nested":[{"name":"n1","rule":"all","from":"A"},{"name":"n2","rule":"pick","count":1,"from":"B"}]}],`,
+			`"submission_requirements":[{"name":"r","rule":"all","from_nested":[{"name":"n1","rule":"pick","min":1,"from":"A"},{"name":"n2","rule":"all","from":"B"}]}],`,
+			`"submission_requirements":[{"name":"r","rule":"all","from":"Z"}],`}
+		groupings := [][]string{{"A", "A"}, {"A", "B"}, {"A", "A", "A"}, {"A", "A", "B"}, {"A", "B", "B"}, {"A,B", "A"}, {"A", "A", "B", "B"}}
+		mkPD := func(req string, bodies []int, groups []string) string {
+			var ds []string
+			for i, b := range bodies {
+				g := ""
+				if req != "" {
+					g = `"group":["` + strings.ReplaceAll(groups[i%len(groups)], ",", `","`) + `"],`
+				}
+				ds = append(ds, fmt.Sprintf(`{"id":"d%d",%s%s}`, i, g, descBodies[b]))
+			}
+			return `{"id":"pd",` + req + `"input_descriptors":[` + strings.Join(ds, ",") + `]}`
+		}
+		mkIn := func(pd string, vcs []string, sub string) string {
+			m := map[string]any{"pd": json.RawMessage(pd), "vcs": []json.RawMessage{}}
+			l := []json.RawMessage{}
+			for _, v := range vcs {
+				l = append(l, json.RawMessage(v))
+			}
+			m["vcs"] = l
+			if sub != "" {
+				m["sub"] = json.RawMessage(sub)
+			}
+			b, _ := json.Marshal(m)
+			return string(b)
+		}
+		bodySets := [][]int{{0, 1}, {0, 1, 2}, {0, 4}, {0, 5}, {1, 3}, {0, 1, 2, 3}, {4, 4}, {0, 0}, {6, 1}, {5, 0, 1}}
+		demoSub := `{"id":"s","definition_id":"pd","descriptor_map":[{"id":"d0","format":"ldp_vc","path":"$.verifiableCredential"}]}`
+		arrSub := `{"id":"s","definition_id":"pd","descriptor_map":[{"id":"d0","format":"ldp_vc","path":"$.verifiableCredential[0]"},{"id":"d1","format":"ldp_vc","path":"$.verifiableCredential[0]"}]}`
+		cnt := 0
+		for ri, req := range reqs {
+			for bi, bodies := range bodySets {
+				for gi, groups := range groupings {
+					if req == "" && gi > 0 {
+						continue
+					}
+					// keep the quick tier small: every (requirement, body set) pair with a rotating grouping/credential set, all of them in thorough
+					if !c19Thorough() && gi != (ri+bi)%len(groupings) && req != "" {
+						continue
+					}
+					for ci, cs := range credSets {
+						if !c19Thorough() && ci != (ri+bi+gi)%len(credSets) && ci > 1 {
+							continue
+						}
+						pd := mkPD(req, bodies, groups)
+						run("pe.match+validate", mkIn(pd, cs, ""), "pd×credentials")
+						if len(cs) == 1 {
+							run("pe.match+validate", mkIn(pd, cs, demoSub), "pd×credentials×submission")
+						} else if len(cs) > 1 {
+							run("pe.match+validate", mkIn(pd, cs, arrSub), "pd×credentials×submission")
+						}
+						cnt++
+					}
+				}
+			}
+		}
+		// submission mutants against the overlapping definition
+		basePD := mkPD(reqs[1], []int{0, 1}, []string{"A", "A"})
+		jsystematic([]byte(arrSub), func(b []byte, kind string) {
+			run("pe.match+validate", mkIn(basePD, []string{org("1", "Care BV", "Caretown"), org("2", "Cure BV", "Curetown")}, string(b)), "submission:"+kind)
+		})
+		jsystematic([]byte(basePD), func(b []byte, kind string) {
+			run("pe.match+validate", mkIn(string(b), []string{org("1", "Care BV", "Caretown")}, demoSub), "definition:"+kind)
+		})
+		for i := 0; i < n/2; i++ {
+			b, kind := m.mutate([]byte(basePD))
+			run("pe.match+validate", mkIn(string(b), credSets[r.Intn(len(credSets))], ""), "rand-definition:"+kind)
 		}
 	}
 
